@@ -8,7 +8,10 @@ ID = "C16"
 GEN_DEPENDS = ["C16Alphabets"]
 RULE = ("random fully bifurcating trees (2-9 leaves quick, up to 14 thorough; random taxon->leaf assignment, namespaces larger than the "
         "leaf set) x histories of 1-5 scoring calls on one tree object and its clones (Tree.clone(1), Tree(tree)), each call with its own "
-        "matrix (DNA/RNA with IUPAC ambiguity codes, protein with B/Z/X, 10-state standard; '?', '-', lower case and synonyms; 1-6 characters), "
+        "matrix (DNA/RNA/nucleotide with IUPAC ambiguity codes, protein with B/Z/X, 10-state standard; 20%: matrices whose columns have their "
+        "own state alphabets - fixed ones and custom 2-5 state alphabets with/without gap and missing-data states, in which '?', '-', 'X' "
+        "and the digits denote different sets (and indexes) in different columns - built through the API (several state_alphabets) or read "
+        "from NeXML with one <states> per <char>; '?', '-', lower case and synonyms; 1-6 characters), "
         "gaps_as_missing both ways, weights None or 0..3 per character (12% of weighted calls: a list that is longer or shorter than the "
         "matrix), entry point parsimony_score / treescore.parsimony_score / "
         "fitch_down_pass with and without node attributes; matrix objects that live across calls and are edited in place between them "
@@ -22,7 +25,8 @@ MODELLED_NOT_VERIFIED = [
     "parsimony_score; tied to the code by the per-call comparison of score and per-character list over histories",
     "C16: the indexing rules of StateAlphabet (which index a symbol gets, gap/no-data handling, case variants) are re-stated in "
     "harness/gen/c16alphabets.py, only the symbol tables are extracted from charstatemodel.py; the rules are tied to the code by the `sets` "
-    "comparison of every generated row with the real taxon_state_sets_map",
+    "comparison of every generated row with the real taxon_state_sets_map; custom per-column alphabets are described to the model by "
+    "their definition (fundamental symbols, ambiguity members, gap/missing flag) and follow the same rules (Model customSet), no theorem",
     "C16: fitch_up_pass is outside the statement and is not modelled; weights are natural numbers (negative weights have no minimum reading); "
     "post-order iteration is taken from C15; which exception class a call outside the statement raises is not compared (only that it raises)",
 ]
@@ -80,12 +84,36 @@ _mk_oracle_tables()
 GAP = "-gap-"
 
 
-def oracle_set(alph, gaps_as_missing, sym):
-    """state set denoted by a symbol, as a frozenset of state *names* (independent of any index numbering)"""
-    fund, tab = ORACLE_ALPHABETS[alph]
-    if sym == "?":
+def col_descs(alph, nchar):
+    """per-column alphabet descriptors of a matrix: `cols:<d>;<d>;...` (one per column) or one fixed alphabet for all"""
+    if alph.startswith("cols:"):
+        return alph[5:].split(";")
+    return [alph] * nchar
+
+
+def col_info(desc):
+    """(fundamental symbols, {symbol: frozenset of state names}, has gap + missing-data states) of one column's alphabet.
+    Custom alphabets are written `cg=<fund>~<amb>...` (with gap and missing-data states) or `cn=...` (without); every <amb> is an
+    ambiguity symbol followed by its members."""
+    if desc in ORACLE_ALPHABETS:
+        fund, tab = ORACLE_ALPHABETS[desc]
+        return fund, tab, True
+    gm = desc.startswith("cg=")
+    parts = desc[3:].split("~")
+    fund = parts[0]
+    tab = {c: frozenset(c) for c in fund}
+    for a in parts[1:]:
+        tab[a[0]] = frozenset(a[1:])
+    return fund, tab, gm
+
+
+def oracle_set(desc, gaps_as_missing, sym):
+    """state set denoted by a symbol IN THE ALPHABET OF ITS COLUMN, as a frozenset of state *names* (independent of any index
+    numbering)"""
+    fund, tab, gm = col_info(desc)
+    if gm and sym == "?":
         return frozenset(fund) if gaps_as_missing else frozenset(fund) | {GAP}
-    if sym == "-":
+    if gm and sym == "-":
         return frozenset(fund) if gaps_as_missing else frozenset([GAP])
     return tab[sym]
 
@@ -280,9 +308,10 @@ def expected(nd, call):
     if call["weights"] is not None and len(call["weights"]) < nchar:
         return None      # fewer weights than characters: no reading of "the given weights" (the code raises when it needs one)
     ws = (call["weights"] or [1] * nchar)[:nchar]
+    descs = col_descs(call["alph"], nchar)
     per = []
     for c in range(nchar):
-        ls = {l[0]: oracle_set(call["alph"], call["gaps"], rows[l[1]][c]) for l in leaves}
+        ls = {l[0]: oracle_set(descs[c], call["gaps"], rows[l[1]][c]) for l in leaves}
         if len(leaves) <= 6:
             k = min_changes_bruteforce(nd, ls)
             if len(leaves) <= 5 and min_changes_sankoff(nd, ls) != k:
@@ -298,13 +327,92 @@ ALPH_CLASS = {"dna": "DnaCharacterMatrix", "rna": "RnaCharacterMatrix", "protein
               "nucleotide": "NucleotideCharacterMatrix", "standard": "StandardCharacterMatrix"}
 
 
+def make_alphabet(dendropy, desc):
+    from dendropy.datamodel import charstatemodel as csm
+    fixed = {"dna": "DNA_STATE_ALPHABET", "rna": "RNA_STATE_ALPHABET", "nucleotide": "NUCLEOTIDE_STATE_ALPHABET",
+             "protein": "PROTEIN_STATE_ALPHABET"}
+    if desc in fixed:
+        return getattr(csm, fixed[desc])
+    if desc == "standard":
+        return dendropy.new_standard_state_alphabet()
+    fund, tab, gm = col_info(desc)
+    amb = [(a[0], a[1:]) for a in desc[3:].split("~")[1:]]
+    return dendropy.StateAlphabet(fundamental_states=fund, ambiguous_states=amb, no_data_symbol="?" if gm else None,
+                                  gap_symbol="-" if gm else None)
+
+
+def nexml_text(call, descs):
+    """a NeXML standard matrix in which every <char> refers to the <states> definition of its own alphabet"""
+    out = ['<?xml version="1.0" encoding="ISO-8859-1"?>',
+           '<nex:nexml version="0.9" xmlns="http://www.nexml.org/2009" xmlns:xsi="http://www.w3.org/2001/XMLSchema-instance" '
+           'xmlns:nex="http://www.nexml.org/2009">', '<otus id="tax">']
+    for bit, _ in call["rows"]:
+        out.append('<otu id="o%d" label="t%d"/>' % (bit, bit))
+    out.append('</otus><characters id="chars" otus="tax" xsi:type="nex:StandardCells"><format>')
+    share = call.get("share", True)
+    sid = {}        # column -> states id ; (states id, symbol) -> element id
+    ids = {}
+    defined = {}
+    for c, desc in enumerate(descs):
+        if share and desc in defined:
+            sid[c] = defined[desc]
+            continue
+        k = "a%d" % c
+        sid[c] = defined[desc] = k
+        fund, tab, gm = col_info(desc)
+        out.append('<states id="%s">' % k)
+        for i, ch in enumerate(fund):
+            ids[(k, ch)] = "%ss%d" % (k, i)
+            out.append('<state id="%s" symbol="%s"/>' % (ids[(k, ch)], ch))
+        for j, a in enumerate(desc[3:].split("~")[1:]):
+            ids[(k, a[0])] = "%su%d" % (k, j)
+            out.append('<uncertain_state_set id="%s" symbol="%s">%s</uncertain_state_set>' % (
+                ids[(k, a[0])], a[0], "".join('<member state="%s"/>' % ids[(k, m)] for m in a[1:])))
+        out.append('</states>')
+    for c in range(len(descs)):
+        out.append('<char id="c%d" states="%s"/>' % (c, sid[c]))
+    out.append('</format><matrix>')
+    for bit, syms in call["rows"]:
+        out.append('<row id="r%d" otu="o%d">%s</row>' % (bit, bit, "".join(
+            '<cell char="c%d" state="%s"/>' % (c, ids[(sid[c], ch)]) for c, ch in enumerate(syms))))
+    out.append('</matrix></characters></nex:nexml>')
+    return "\n".join(out)
+
+
+def column_alphabets(m, taxon):
+    """the state alphabet object each column's cell belongs to (for in-place edits)"""
+    out = []
+    for cell in m[taxon]:
+        out.append([sa for sa in m.state_alphabets if any(st is cell for st in sa.state_iter())][0])
+    return out
+
+
 def build_matrix(dendropy, tns, call):
+    alph = call["alph"]
+    if alph.startswith("cols:"):
+        nchar = len(call["rows"][0][1])
+        descs = col_descs(alph, nchar)
+        if call.get("route") == "nexml":
+            return dendropy.StandardCharacterMatrix.get(data=nexml_text(call, descs), schema="nexml", taxon_namespace=tns)
+        made = {}
+        sas = []
+        for d in descs:
+            if not (call.get("share", True) and d in made):
+                made[d] = make_alphabet(dendropy, d)
+            sas.append(made[d])
+        m = dendropy.StandardCharacterMatrix(taxon_namespace=tns, default_state_alphabet=None)
+        for sa in sas:
+            if not any(sa is x for x in m.state_alphabets):
+                m.state_alphabets.append(sa)
+        for bit, syms in call["rows"]:
+            m[tns[bit]] = [sas[c][ch] for c, ch in enumerate(syms)]
+        return m
     d = {}
     for bit, syms in call["rows"]:
         d[tns[bit]] = syms
-    cls = getattr(dendropy, ALPH_CLASS[call["alph"]])
+    cls = getattr(dendropy, ALPH_CLASS[alph])
     kw = {}
-    if call["alph"] == "standard":
+    if alph == "standard":
         kw["default_state_alphabet"] = dendropy.new_standard_state_alphabet()
     return cls.from_dict(d, taxon_namespace=tns, **kw)
 
@@ -323,10 +431,15 @@ def canon_model(text):
 def apply_edit(dendropy, tns, m, op):
     """edit a matrix object IN PLACE (dimensions unchanged)"""
     taxon = tns[op["bit"]]
+    mixed = len(m.state_alphabets) != 1
     if op["how"] == "seq":
-        m[taxon] = m.coerce_values(op["syms"])           # whole sequence replaced by one of equal length
+        if mixed:
+            sas = column_alphabets(m, taxon)
+            m[taxon] = [sas[c][ch] for c, ch in enumerate(op["syms"])]
+        else:
+            m[taxon] = m.coerce_values(op["syms"])           # whole sequence replaced by one of equal length
     else:
-        state = m.default_state_alphabet[op["sym"]]
+        state = (column_alphabets(m, taxon)[op["idx"]] if mixed else m.default_state_alphabet)[op["sym"]]
         if op["how"] == "set_at":
             m[taxon].set_at(op["idx"], state)
         else:
@@ -438,6 +551,8 @@ def run_case(ctx, dendropy, case, pending):
             got, m = impl_call(dendropy, obj, tns, op, ent["m"] if ent else None)
         results.append(got)
         ctx.count("result " + got.split()[0])
+        if op["alph"].startswith("cols:"):
+            ctx.count("per-column alphabets, %s route" % op.get("route", "api"))
         # --- oracle: the statement evaluated on this call, on the CURRENT content of the matrix passed in
         ex = expected(nd, op)
         if base is not None:
@@ -487,7 +602,7 @@ def run_case(ctx, dendropy, case, pending):
             ent["scored"] += 1
         # --- the state sets the matrix hands to the down pass (correspondence of the alphabet tables + rules; for a
         #     long-lived matrix object: of its current content)
-        if op["alph"] in ALPH_CLASS and (len(sets_lines) < 3 or (ent is not None and ent["edited"] and len(sets_lines) < 8)):
+        if (op["alph"] in ALPH_CLASS or op["alph"].startswith("cols:")) and (len(sets_lines) < 3 or (ent is not None and ent["edited"] and len(sets_lines) < 8)):
             tsm = m.taxon_state_sets_map(gaps_as_missing=op["gaps"])
             bit, syms = op["rows"][nscore % len(op["rows"])]
             sets_lines.append(("sets %s %d =%s" % (op["alph"], 1 if op["gaps"] else 0, syms),
@@ -551,7 +666,51 @@ def gen_symbols(rng, alph, nleaves, nchar):
     return ["".join(cols[c][i] for c in range(nchar)) for i in range(nleaves)]
 
 
+def gen_col_desc(rng):
+    r = rng.random()
+    if r < 0.2:
+        return rng.choice(["dna", "standard", "rna", "protein", "nucleotide"])
+    fund = "0123456789"[:rng.choice([2, 2, 3, 4, 4, 5])]
+    if rng.random() < 0.25:
+        fund = "".join(rng.sample("0123456789", len(fund)))       # the same symbol gets another index in this column
+    gm = rng.random() < 0.5
+    amb = []
+    if not gm and rng.random() < 0.8:
+        amb.append("?" + fund)                                       # NeXML style: '?' is an ordinary uncertain_state_set
+    if rng.random() < 0.5:
+        amb.append("X" + "".join(sorted(rng.sample(fund, rng.randint(2, len(fund))))))
+    if not gm and rng.random() < 0.3:
+        amb.append("-" + "".join(rng.sample(fund, rng.randint(1, len(fund)))))
+    return ("cg=" if gm else "cn=") + "~".join([fund] + amb)
+
+
+def gen_mixed_call(rng, bits, obj, extra_bits=()):
+    """a matrix whose columns have their own state alphabets; '?', '-', 'X' and the digits denote different sets in different
+    columns"""
+    nchar = rng.choice([2, 2, 3, 4, 5])
+    pool = [gen_col_desc(rng) for _ in range(rng.choice([2, 2, 3]))]
+    descs = [rng.choice(pool) for _ in range(nchar)]
+    route = "nexml" if all(d.startswith("cn=") for d in descs) and rng.random() < 0.6 else "api"
+    allbits = list(bits) + list(extra_bits)
+    cols = []
+    for d in descs:
+        fund, tab, gm = col_info(d)
+        shared = [x for x in (["?", "-"] if gm else []) + [k for k in tab if len(tab[k]) > 1]]
+        base = rng.sample(list(fund), min(rng.choice([1, 2, 2, 3]), len(fund)))
+        p = rng.choice([0.15, 0.3, 0.5]) if shared else 0
+        cols.append([rng.choice(shared) if rng.random() < p else rng.choice(base) for _ in allbits])
+    order = list(range(len(allbits)))
+    rng.shuffle(order)
+    rows = [[allbits[i], "".join(cols[c][i] for c in range(nchar))] for i in order]
+    weights = None if rng.random() < 0.6 else [rng.choice([0, 1, 1, 2, 3]) for _ in range(nchar)]
+    return {"op": "S", "obj": obj, "alph": "cols:" + ";".join(descs), "gaps": rng.random() < 0.5, "weights": weights, "rows": rows,
+            "route": route, "share": rng.random() < 0.7,
+            "via": rng.choice(["parsimony", "parsimony", "treescore", "down", "down_noattr"])}
+
+
 def gen_call(rng, bits, obj, extra_bits=()):
+    if rng.random() < 0.2:
+        return gen_mixed_call(rng, bits, obj, extra_bits)
     alph = rng.choice(["dna", "dna", "dna", "standard", "standard", "rna", "protein", "nucleotide"])
     nchar = rng.choice([1, 1, 2, 3, 4, 4, 5, 6])
     allbits = list(bits) + list(extra_bits)
@@ -619,17 +778,20 @@ def gen_matrix_history(dendropy, rng, max_leaves):
     for _ in range(rng.randint(1, 5)):
         k = rng.randrange(nmat)
         c = content[k]
-        fund, tab = ORACLE_ALPHABETS[c["alph"]]
-        pool = list(fund) + ["-", "?"] + [x for x in tab if len(tab[x]) > 1][:6]
+        pools = []
+        for d in col_descs(c["alph"], c["nchar"]):
+            fund, tab, gm = col_info(d)
+            pools.append(list(fund) + (["-", "?"] if gm else []) + [x for x in tab if len(tab[x]) > 1][:6])
         for _ in range(rng.choice([0, 1, 1, 1, 2, 3])):
             bit = rng.choice(sorted(c["rows"]))
             if rng.random() < 0.3:
-                syms = "".join(rng.choice(pool) for _ in range(c["nchar"]))
+                syms = "".join(rng.choice(pools[i]) for i in range(c["nchar"]))
                 ops.append({"op": "E", "mat": k, "how": "seq", "bit": bit, "syms": syms})
                 c["rows"][bit] = syms
             else:
                 idx = rng.randrange(c["nchar"])
                 old = c["rows"][bit][idx]
+                pool = pools[idx]
                 sym = rng.choice([x for x in pool if x != old] or pool)
                 ops.append({"op": "E", "mat": k, "how": rng.choice(["cell", "cell", "set_at"]), "bit": bit, "idx": idx, "sym": sym})
                 c["rows"][bit] = c["rows"][bit][:idx] + sym + c["rows"][bit][idx + 1:]
